@@ -146,7 +146,25 @@ def fiber_fs(sk, s, *xs):
     f2 = Fiber(fc, fv, shape=shape, active_range=ar)
     sf = raw(f)
     d0 = _dense(f, shape)
-    if op == "add":
+    sbox = None
+    if op == "add" and sk.get("boxed"):
+        # the scalar arrives as a box: the sum must not hand that box (or any one box twice) out as an element's payload
+        sbox = Payload(s)
+        r = f + sbox
+        r2 = sbox + f
+        want = [v + s for v in d0]
+        objs = list(r.payloads) + list(r2.payloads) + [sbox] + list(f.payloads)
+        for i in range(len(objs)):
+            for j in range(i + 1, len(objs)):
+                if objs[i] is objs[j]:
+                    return fail("fiber + boxed scalar: one box object appears twice among the results' payloads, the scalar's box and the operand's payloads")
+        r3 = f + sbox
+        r3 *= 3
+        if _dense(r3, shape) != [3 * v for v in want]:
+            return fail("(f + box) *= 3 differs from (f + box) * 3")
+        if pv(sbox) != s:
+            return fail("the scalar's box changed")
+    elif op == "add":
         r = f + s
         r2 = s + f
         want = [v + s for v in d0]
@@ -160,7 +178,7 @@ def fiber_fs(sk, s, *xs):
     if raw(f) != sf:
         return fail("operand changed")
     if op == "add":
-        f2 += s
+        f2 += (Payload(s) if sk.get("boxed") else s)
     else:
         f2 *= sk["s"]
     if _dense(f2, shape) != want:
@@ -209,6 +227,7 @@ def obligations(tier):
             pre = chain_pre(names("f", n)) + bound_pre(names("f", n), 0, shape)
             obs.append(Ob("fiber/adds/%d/%d" % (n, shape), "fiber_fs", dict(n=n, shape=shape, op="add"), ps, pre))
             obs.append(Ob("fiber/adds/%d/%d/active12" % (n, shape), "fiber_fs", dict(n=n, shape=shape, op="add", active=[1, 2]), ps, pre))
+            obs.append(Ob("fiber/adds/%d/%d/boxed" % (n, shape), "fiber_fs", dict(n=n, shape=shape, op="add", boxed=True), ps, pre))
             for sc in (0, 3):
                 obs.append(Ob("fiber/muls/%d/%d/%d" % (n, shape, sc), "fiber_fs", dict(n=n, shape=shape, op="mul", s=sc), ps, pre))
     return obs
